@@ -4,6 +4,7 @@ CSR node   := {"t":"dec","aw":A,"align":L,"children":[{"node":N,"name":str|None,
             | {"t":"bridge","aw":A,"regs":[[width, "rw"|"r"|"w", offset|None], ...]}      csr.Builder + csr.Bridge, real registers/fields
             | {"t":"evmon","n":events,"align":L}                                            csr.EventMonitor
             | {"t":"gpio","pins":P,"aw":A}                                                  gpio.Peripheral
+            | {"t":"mux","aw":A,"regs":[[width, access, offset|None],...],"late":k}          csr.Multiplexer over mock registers (k added late)
 WB root    := {"aw":A,"dw":D,"g":G,"align":L,"children":[{"t":"sram","size":S,"name":..,"addr":..}|{"t":"csr","csr_dw":..,"node":N,"name":..}]}
 All windows are dense between buses of equal granularity, at implicit addresses or explicit multiples of the window size.
 """
@@ -45,6 +46,14 @@ def build_csr(node, dw, built):
         br = csr.Bridge(b.as_memory_map())
         built.add(br, "bridge")
         return br.bus
+    if t == "mux":
+        # a bare csr.Multiplexer over mock registers; with "late" the last registers are added to the still-open map after the
+        # multiplexer was constructed (and, with "elab_between", elaborated once)
+        from . import mux as _mux
+        mx = _mux.build({"dw": dw, "aw": node["aw"], "align": 0, "ov": None, "regs": [[w, acc, off, None] for w, acc, off in node["regs"]],
+                         "late": node.get("late", 0), "elab_between": node.get("elab_between", False)})
+        built.add(mx, "mux")
+        return mx.bus
     if t == "evmon":
         emap = event.EventMap()
         for i in range(node["n"]):
@@ -173,6 +182,9 @@ def csr_configs(tier, seed, salt=0):
             {"node": {"t": "gpio", "pins": 3, "aw": 4}, "name": "gpio", "addr": None},
             {"node": {"t": "bridge", "aw": 4, "regs": [[40, "rw", 8], [3, "w", None]]}, "name": None, "addr": 0x40}]}},
     ]
+    cfgs.append({"dw": 8, "root": {"t": "dec", "aw": 7, "align": 0, "children": [
+        {"node": {"t": "mux", "aw": 3, "regs": [[8, "rw", None], [16, "rw", None], [8, "r", None]], "late": 2}, "name": "late", "addr": 0x10},
+        {"node": {"t": "mux", "aw": 2, "regs": [[8, "rw", None], [12, "w", None]], "late": 1, "elab_between": True}, "name": None, "addr": None}]}})
     for c in cfgs:
         c["directed"] = True          # hand-written hierarchies are valid by construction: a refusal is a violation (must_accept)
     n = 12 if tier == "quick" else 300
